@@ -104,7 +104,8 @@ class Linter:
     def _lint_path(self, path_obj: Path) -> list[Violation]:
         """Lint a path (file or directory)."""
         if path_obj.is_file():
-            return self.orchestrator.lint_file(path_obj)
+            # lint_files also finalizes cross-file rules, so no state leaks into the next call
+            return self.orchestrator.lint_files([path_obj])
         if path_obj.is_dir():
             return self.orchestrator.lint_directory(path_obj, recursive=True)
         return []
